@@ -35,7 +35,8 @@ def parse_state(op):
                 limit=None if t[7] == "-" else int(t[7][1:]),
                 ban=set(unesc_list(t[8])), exc=set(unesc_list(t[9])), invex=set(unesc_list(t[10])),
                 q=set(unesc_list(t[11])), a=set(unesc_list(t[12])), o=set(unesc_list(t[13])),
-                h=set(unesc_list(t[14])), v=set(unesc_list(t[15])), pre=t[21] == "1")
+                h=set(unesc_list(t[14])), v=set(unesc_list(t[15])), pre=t[21] == "1",
+                defaults=tuple(frozenset(unesc_list(t[i])) for i in range(16, 21)))
         elif k == "member":
             s.chans.setdefault(unesc(t[2]), {"members": {}, "bans": {}})["members"][unesc(t[3])] = unesc(t[4])
         elif k == "cnt":
@@ -438,11 +439,21 @@ def mon_hidden(seq, ctx):
 
 def mon_chanlife(seq, ctx):
     prev = None
+    configured = {}
     for op in seq.ops:
         st = parse_state(op)
         for ch, C in st.chans.items():
             if not C["members"] and not C.get("pre"):
                 return [fail("chanlife", "empty-channel-survives", op, chan=ch)]
+            if C.get("pre"):
+                # the configured rank lists of a preconfigured channel are configuration: nothing rewrites them
+                if ch in configured and configured[ch] != C.get("defaults"):
+                    return [fail("chanlife", "configured-ranks-rewritten", op, chan=ch,
+                                 before=[sorted(x) for x in configured[ch]], after=[sorted(x) for x in C["defaults"]])]
+                configured.setdefault(ch, C.get("defaults"))
+        for ch in configured:
+            if ch not in st.chans:
+                return [fail("chanlife", "preconfigured-channel-erased", op, chan=ch)]
         if prev is not None and kind_of(op) == "JOIN":
             c, line = op_line(op)
             cn = prev.conns.get(c)
